@@ -578,3 +578,296 @@ Theorem C04_tr_lbuf_opt_null_hist : forall ext (m : CLite.mem) bl (blk : CLite.b
   CLiteExt.callx ext GenCFuncs.cprog fuel (S (S (S (S d)))) GenCFuncs.F_lbuf_opt [CLite.VPtr bl 0; bufv; CLite.VInt p; CLite.VInt nd] m = CLite.Err CLite.EShape.
 Proof. exact TrUndoEdit.tr_lbuf_opt_null_hist. Qed.
 Print Assumptions C04_tr_lbuf_opt_null_hist.
+
+(* ---- the two halves of the undo machinery COMPOSED on the translated C text (TrCmp4Str.v, TrCmp4Rep.v, TrCmp4.v, TrCmp4Loop.v,
+   TrCmp4Edit.v, TrCmp4Ex.v): lbuf_replace is no longer an oracle.
+   * C04_tr_lbuf_replace_long: the theorem C04_tr_lbuf_replace for a text argument at the start of a block that is LONGER than the
+     string (what lbuf_cp hands out through sbuf_done, i.e. what the log's `del` strings are), plus: the cells mark_off[] of the
+     struct hold integers afterwards (urep needs it).
+   * Tc: the abstract table predicate T of urep instantiated with the concrete line table of lbuf_at (pointer array, ln_glob array,
+     one live block per line, all distinct, capacity > 0, i.e. ln != NULL); C04_tr_Tc_frame: it satisfies T_frame.
+   * C04_tr_replace_discharged: what replace_oracle ASSUMES of its oracle, PROVED of the translated lbuf_replace: a memory that
+     represents a model state, log and text (urep Tc), goes to a memory that represents UndoDefs.lbuf_replace of it, same hist
+     array.  Side conditions (the theorem says exactly which): the text argument is NULL or lies in a block outside the struct and
+     the table that starts with the string, shorter than 2 GB (text_arg); the range is inside the table and the new line count
+     inside int (splice_ok); every mark row is an int and its shift does not overflow (row_fits); the capacity the growth loop
+     reaches is inside int (fits); fuel.  ln == NULL (a buffer lbuf_make just made: memcpy(nln, NULL, 0)) is outside Tc.
+   * C04_tr_lbuf_undo_full / C04_tr_lbuf_redo_full: the translated lbuf_undo / lbuf_redo for every call semantics whose answer for
+     X_lbuf_replace IS the run of the translated lbuf_replace (ext_is_replace) leave a memory that represents UndoDefs.lbuf_undo /
+     lbuf_redo -- log AND text; result 1 and memory untouched exactly when the model fails.  Side conditions: undo_ok / redo_ok (model)
+     and, at the start of every iteration, on the memory the run has reached, step_ok (marks, capacity, text length, fuel):
+     undo_run_ok / redo_run_ok.  They are stated on the memory of the run because TrUndo.v proves that lbuf_loadpos / lbuf_loadmark leave
+     integers in the mark cells, not which.  For a group of ONE record they are conditions on the entry memory only:
+     C04_tr_undo_run_one / C04_tr_redo_run_one.
+   * C04_tr_lbuf_edit_full: lbuf_edit likewise (lbuf_cp stays an oracle, cp_oracle: it is not translated); the mark rows are those
+     lbuf_opt leaves, stated on the memory it returns.
+   * C04_tr_edit_undo_redo_model and C04_tr_undo_inverts_edit: the property on the C text -- translated lbuf_edit, then translated
+     lbuf_undo, then translated lbuf_redo: the memory after the undo represents the ORIGINAL text (Tc: the line blocks hold the
+     original lines byte for byte), the memory after the redo the edited text; for an edit that is a change and the only one of
+     its command, on newline-terminated lines.
+   * C04_tr_ec_undo_full / C04_tr_ec_redo_full: the ex commands `u` / `redo` (return lbuf_undo(xb) / lbuf_redo(xb)). *)
+From NV Require TrCmp4Str TrCmp4Rep TrCmp4 TrCmp4Loop TrCmp4Edit TrCmp4Ex.
+Section C04_translated_composed.
+Import Lia CLite CLiteProps CLiteExt GenCFuncs TrLbufBase TrUndoBase TrUndo TrUndoOpt TrUndoEdit TrSpliceMarks TrSpliceAll TrSpliceModels.
+Import TrCmp4Str TrCmp4Rep TrCmp4 TrCmp4Loop TrCmp4Edit TrCmp4Ex.
+Local Open Scope Z_scope.
+
+Theorem C04_tr_lbuf_replace_long : forall (m : mem) lb blk bln bgl lbs (lines : list (list N)) globs mk cap sv (t : list N) nul pos nd cap' d fuel,
+  let n := length lines in let ni := IoDefs.linecount t in
+  let need := Z.of_nat n + Z.of_nat ni - Z.of_nat nd in
+  lbuf_at m lb blk bln bgl lbs lines globs mk cap ->
+  s_textp m (lb :: bln :: bgl :: lbs) sv t nul ->
+  (pos + nd <= n)%nat ->
+  Z.of_nat n + Z.of_nat ni <= 2147483647 ->
+  IoDefs.grow (IoDefs.grow_fuel need) need (Z.of_nat cap) = Some cap' -> cap' <= 2147483647 ->
+  Forall (row_fits (Z.of_nat pos) (Z.of_nat nd) (Z.of_nat ni)) mk ->
+  (splice_fuel n ni nd <= fuel)%nat ->
+  exists m' blk' bln' bgl' base,
+    callf cprog fuel (S (S (S d))) F_lbuf_replace [VPtr lb 0; sv; VInt (Z.of_nat pos); VInt (Z.of_nat nd)] m = Ok (VUndef, m')
+    /\ lbuf_at m' lb blk' bln' bgl' (splice lbs (List.seq base ni) pos nd) (splice lines (IoDefs.split_lines t) pos nd)
+         (splice_globs globs pos nd ni) (splice_marks nul pos nd ni mk) (Z.to_nat cap')
+    /\ need < cap' /\ Z.of_nat cap <= cap'
+    /\ (length m <= base)%nat /\ (length m <= length m')%nat
+    /\ (forall c, (c < length m)%nat -> ~ In c (lb :: bln :: bgl :: lbs) -> nth_error m' c = nth_error m c)
+    /\ (forall b, In b (firstn nd (skipn pos lbs)) -> nth_error m' b = Some [])
+    /\ TrSplice.arr_kept m m' bln bln' /\ TrSplice.arr_kept m m' bgl bgl'
+    /\ (forall j, (68 <= j)%nat -> nth_error blk' j = nth_error blk j)
+    /\ (forall j, (32 <= j < 64)%nat -> (exists z, nth_error blk j = Some (VInt z)) -> exists z, nth_error blk' j = Some (VInt z)).
+Proof. exact tr_lbuf_replace_p. Qed.
+Print Assumptions C04_tr_lbuf_replace_long.
+
+Theorem C04_tr_Tc_frame : T_frame Tc.
+Proof. exact Tc_frame. Qed.
+Print Assumptions C04_tr_Tc_frame.
+
+Theorem C04_tr_replace_discharged : forall (m : mem) bl (blk : block) bh (hblk : block) (lb : lbuf) fp sv (s : option (list N)) p nd cap' d fuel,
+  urep Tc m bl blk bh hblk lb ->
+  Tc m (tcells blk) fp (ln lb) -> (forall b, In b fp -> ~ In b (owned bl bh hblk (length (hist lb)))) ->
+  text_arg m bl fp sv s -> splice_ok lb s p nd -> fits blk (length (ln lb)) s p nd cap' ->
+  (splice_fuel (length (ln lb)) (linecount s) nd <= fuel)%nat ->
+  exists (m' : mem) (blk' : block) fp',
+    callf cprog fuel (S (S (S d))) F_lbuf_replace [VPtr bl 0; sv; VInt (Z.of_nat p); VInt (Z.of_nat nd)] m = Ok (VUndef, m') /\
+    urep Tc m' bl blk' bh hblk (lbuf_replace lb s p nd) /\
+    Tc m' (tcells blk') fp' (ln (lbuf_replace lb s p nd)) /\
+    (forall b, In b fp' -> ~ In b (owned bl bh hblk (length (hist lb))) /\ (b < length m')%nat) /\
+    (length m <= length m')%nat /\
+    (forall c, (c < length m)%nat -> c <> bl -> ~ In c fp -> nth_error m' c = nth_error m c) /\
+    nth_error blk' L_ln_sz = Some (VInt cap') /\
+    (forall k, (k < 32)%nat -> nth_error blk' k = Some (VInt (nth k (splice_marks (is_null s) p nd (linecount s) (marks_of blk)) 0))).
+Proof. exact replace_sim. Qed.
+Print Assumptions C04_tr_replace_discharged.
+
+Theorem C04_tr_lbuf_undo_full : forall (ext : nat -> list val -> mem -> res (val * mem)) (fuelR dR : nat), ext_is_replace ext fuelR dR ->
+  forall (bl bh : nat) (hblk : block) (d fuel : nat) (m : mem) (blk : block) (lb : lbuf),
+  urep Tc m bl blk bh hblk lb -> undo_ok lb -> undo_run_ok ext fuelR bl d fuel m lb -> (hist_u lb + 33 < fuel)%nat ->
+  match lbuf_undo lb with
+  | Some lb' => exists (m' : mem) (blk' : block),
+      callx ext cprog fuel (S (S (S (S d)))) F_lbuf_undo [VPtr bl 0] m = Ok (VInt 0, m') /\ urep Tc m' bl blk' bh hblk lb'
+  | None => callx ext cprog fuel (S (S (S (S d)))) F_lbuf_undo [VPtr bl 0] m = Ok (VInt 1, m)
+  end.
+Proof. exact tr_lbuf_undo_full. Qed.
+Print Assumptions C04_tr_lbuf_undo_full.
+
+Theorem C04_tr_lbuf_redo_full : forall (ext : nat -> list val -> mem -> res (val * mem)) (fuelR dR : nat), ext_is_replace ext fuelR dR ->
+  forall (bl bh : nat) (hblk : block) (d fuel : nat) (m : mem) (blk : block) (lb : lbuf),
+  urep Tc m bl blk bh hblk lb -> redo_ok lb -> redo_run_ok ext fuelR bl d fuel m lb -> (length (hist lb) - hist_u lb < fuel)%nat ->
+  match lbuf_redo lb with
+  | Some lb' => exists (m' : mem) (blk' : block),
+      callx ext cprog fuel (S (S (S (S d)))) F_lbuf_redo [VPtr bl 0] m = Ok (VInt 0, m') /\ urep Tc m' bl blk' bh hblk lb'
+  | None => callx ext cprog fuel (S (S (S (S d)))) F_lbuf_redo [VPtr bl 0] m = Ok (VInt 1, m)
+  end.
+Proof. exact tr_lbuf_redo_full. Qed.
+Print Assumptions C04_tr_lbuf_redo_full.
+
+(* a group of one record (a command that made one lbuf_edit call): the side conditions are about the memory the call starts from *)
+Theorem C04_tr_undo_run_one : forall (ext : nat -> list val -> mem -> res (val * mem)) (fuelR bl : nat) (hblk : block) (d fuel : nat) (m : mem) (lb : lbuf),
+  one_undo lb ->
+  (let lo := nth (hist_u lb - 1) (hist lb) dflt in step_ok fuelR bl m (length (ln lb)) (del lo) (pos lo) (n_ins lo)) ->
+  undo_run_ok ext fuelR bl d fuel m lb.
+Proof. exact undo_run_fits_one. Qed.
+Print Assumptions C04_tr_undo_run_one.
+Theorem C04_tr_redo_run_one : forall (ext : nat -> list val -> mem -> res (val * mem)) (fuelR bl d fuel : nat) (m : mem) (lb : lbuf),
+  one_redo lb ->
+  (let lo := nth (hist_u lb) (hist lb) dflt in step_ok fuelR bl m (length (ln lb)) (ins lo) (pos lo) (n_del lo)) ->
+  redo_run_ok ext fuelR bl d fuel m lb.
+Proof. exact redo_run_fits_one. Qed.
+Print Assumptions C04_tr_redo_run_one.
+
+Theorem C04_tr_lbuf_edit_full : forall (ext : nat -> list val -> mem -> res (val * mem)) (fuelR dR : nat), ext_is_replace ext fuelR dR ->
+  forall (d fuel : nat) (m : mem) (bl : nat) (blk : block) (bh : nat) (hblk : block) (lb : lbuf) (bufv : val) (buf : option (list N)) (b e cap0 : nat) (cap' : Z),
+  cp_oracle ext Tc bl -> urep Tc m bl blk bh hblk lb -> bufarg m bl bh bufv buf ->
+  (forall (bb : nat) (o : Z), bufv = VPtr bb o -> ~ In bb (log_blocks hblk 0 (length (hist lb)))) ->
+  (forall (bb : nat) (o : Z) fp, bufv = VPtr bb o -> Tc m (tcells blk) fp (ln lb) -> ~ In bb fp) ->
+  (forall (bb : nat) s (o : Z), bufv = VPtr bb o -> str_at m bb s -> Z.of_nat (length s) + 2 <= 2147483647) ->
+  (b <= e)%nat -> i31 e -> i31 (length (ln lb) + linecount buf) -> Z.of_nat (hist_sz lb) * 2 <= 2147483647 ->
+  (length (hist lb) - hist_u lb < fuel)%nat -> (linecount buf < fuel)%nat -> (28 < fuel)%nat ->
+  let b' := Nat.min b (length (ln lb)) in let e' := Nat.min e (length (ln lb)) in
+  let need := Z.of_nat (length (ln lb)) + Z.of_nat (linecount buf) - Z.of_nat (e' - b') in
+  nth_error blk L_ln_sz = Some (VInt (Z.of_nat cap0)) -> IoDefs.grow (IoDefs.grow_fuel need) need (Z.of_nat cap0) = Some cap' -> cap' <= 2147483647 ->
+  (splice_fuel (length (ln lb)) (linecount buf) (e' - b') <= fuelR)%nat ->
+  (forall (m1 : mem) (blk1 : block),
+     callx ext cprog fuel (S (S (S (S d)))) F_lbuf_opt [VPtr bl 0; bufv; VInt (Z.of_nat b'); VInt (Z.of_nat (e' - b'))] m = Ok (VUndef, m1) ->
+     nth_error m1 bl = Some blk1 ->
+     forall k, (k < 32)%nat -> exists z, nth_error blk1 k = Some (VInt z) /\ row_fits (Z.of_nat b') (Z.of_nat (e' - b')) (Z.of_nat (linecount buf)) z) ->
+  if andb (Nat.eqb b' e') (is_none buf)
+  then callx ext cprog fuel (S (S (S (S (S d))))) F_lbuf_edit [VPtr bl 0; bufv; VInt (Z.of_nat b); VInt (Z.of_nat e)] m = Ok (VUndef, m)
+  else exists (m' : mem) (blk' : block) (bh' : nat) (hblk' : block),
+         callx ext cprog fuel (S (S (S (S (S d))))) F_lbuf_edit [VPtr bl 0; bufv; VInt (Z.of_nat b); VInt (Z.of_nat e)] m = Ok (VUndef, m') /\
+         urep Tc m' bl blk' bh' hblk' (lbuf_edit lb buf b e).
+Proof. exact tr_lbuf_edit_full. Qed.
+Print Assumptions C04_tr_lbuf_edit_full.
+
+(* the model: undo inverts the one edit of a command (the deleted lines, concatenated by lbuf_cp and split again, are the lines), redo repeats it *)
+Theorem C04_tr_edit_undo_redo_model : forall (lb : lbuf) (buf : option (list N)) (b e : nat),
+  Forall line_wf (ln lb) -> (hist_u lb <= length (hist lb))%nat -> lone_edit lb ->
+  let b' := Nat.min b (length (ln lb)) in let e' := Nat.min e (length (ln lb)) in
+  (b <= e)%nat -> andb (Nat.eqb b' e') (is_none buf) = false ->
+  let lb1 := lbuf_edit lb buf b e in
+  exists lb2 lb3, lbuf_undo lb1 = Some lb2 /\ ln lb2 = ln lb /\ lbuf_redo lb2 = Some lb3 /\ ln lb3 = ln lb1 /\
+    one_undo lb1 /\ one_redo lb2 /\ hist lb2 = hist lb1 /\ hist_u lb2 = hist_u lb /\
+    hist lb1 = firstn (hist_u lb) (hist lb) ++ [new_entry lb buf b' (e' - b')] /\
+    hist_u lb1 = S (hist_u lb) /\ lb2 = undo1 lb1 /\ lb3 = redo1 lb2.
+Proof. exact edit_then_undo_redo. Qed.
+Print Assumptions C04_tr_edit_undo_redo_model.
+
+Theorem C04_tr_undo_inverts_edit : forall (ext : nat -> list val -> mem -> res (val * mem)) (fuelR dR : nat), ext_is_replace ext fuelR dR ->
+  forall (d fuel : nat) (m : mem) (bl : nat) (blk : block) (bh : nat) (hblk : block) (lb : lbuf) (bufv : val) (buf : option (list N)) (b e cap0 : nat) (cap' : Z),
+  cp_oracle ext Tc bl -> urep Tc m bl blk bh hblk lb -> bufarg m bl bh bufv buf ->
+  (forall (bb : nat) (o : Z), bufv = VPtr bb o -> ~ In bb (log_blocks hblk 0 (length (hist lb)))) ->
+  (forall (bb : nat) (o : Z) fp, bufv = VPtr bb o -> Tc m (tcells blk) fp (ln lb) -> ~ In bb fp) ->
+  (forall (bb : nat) s (o : Z), bufv = VPtr bb o -> str_at m bb s -> Z.of_nat (length s) + 2 <= 2147483647) ->
+  (b <= e)%nat -> i31 e -> i31 (length (ln lb) + linecount buf) -> Z.of_nat (hist_sz lb) * 2 <= 2147483647 ->
+  (length (hist lb) + 35 < fuel)%nat -> (linecount buf < fuel)%nat ->
+  let b' := Nat.min b (length (ln lb)) in let e' := Nat.min e (length (ln lb)) in
+  let need := Z.of_nat (length (ln lb)) + Z.of_nat (linecount buf) - Z.of_nat (e' - b') in
+  nth_error blk L_ln_sz = Some (VInt (Z.of_nat cap0)) -> IoDefs.grow (IoDefs.grow_fuel need) need (Z.of_nat cap0) = Some cap' -> cap' <= 2147483647 ->
+  (splice_fuel (length (ln lb)) (linecount buf) (e' - b') <= fuelR)%nat ->
+  (forall (m1 : mem) (blk1 : block),
+     callx ext cprog fuel (S (S (S (S d)))) F_lbuf_opt [VPtr bl 0; bufv; VInt (Z.of_nat b'); VInt (Z.of_nat (e' - b'))] m = Ok (VUndef, m1) ->
+     nth_error m1 bl = Some blk1 ->
+     forall k, (k < 32)%nat -> exists z, nth_error blk1 k = Some (VInt z) /\ row_fits (Z.of_nat b') (Z.of_nat (e' - b')) (Z.of_nat (linecount buf)) z) ->
+  andb (Nat.eqb b' e') (is_none buf) = false -> lone_edit lb -> Forall line_wf (ln lb) ->
+  let lb1 := lbuf_edit lb buf b e in let lb2 := undo1 lb1 in
+  undo_ok lb1 -> redo_ok lb2 ->
+  (forall m1, callx ext cprog fuel (S (S (S (S (S d))))) F_lbuf_edit [VPtr bl 0; bufv; VInt (Z.of_nat b); VInt (Z.of_nat e)] m = Ok (VUndef, m1) ->
+     let lo := nth (hist_u lb1 - 1) (hist lb1) dflt in step_ok fuelR bl m1 (length (ln lb1)) (del lo) (pos lo) (n_ins lo)) ->
+  (forall m1 m2, callx ext cprog fuel (S (S (S (S (S d))))) F_lbuf_edit [VPtr bl 0; bufv; VInt (Z.of_nat b); VInt (Z.of_nat e)] m = Ok (VUndef, m1) ->
+     callx ext cprog fuel (S (S (S (S d)))) F_lbuf_undo [VPtr bl 0] m1 = Ok (VInt 0, m2) ->
+     let lo := nth (hist_u lb2) (hist lb2) dflt in step_ok fuelR bl m2 (length (ln lb2)) (ins lo) (pos lo) (n_del lo)) ->
+  exists (m1 m2 m3 : mem) (blk2 blk3 : block) (bh' : nat) (hblk' : block),
+    callx ext cprog fuel (S (S (S (S (S d))))) F_lbuf_edit [VPtr bl 0; bufv; VInt (Z.of_nat b); VInt (Z.of_nat e)] m = Ok (VUndef, m1) /\
+    callx ext cprog fuel (S (S (S (S d)))) F_lbuf_undo [VPtr bl 0] m1 = Ok (VInt 0, m2) /\
+    callx ext cprog fuel (S (S (S (S d)))) F_lbuf_redo [VPtr bl 0] m2 = Ok (VInt 0, m3) /\
+    urep Tc m2 bl blk2 bh' hblk' lb2 /\ ln lb2 = ln lb /\
+    urep Tc m3 bl blk3 bh' hblk' (redo1 lb2) /\ ln (redo1 lb2) = edit_text (ln lb) buf b e.
+Proof. exact tr_undo_inverts_edit. Qed.
+Print Assumptions C04_tr_undo_inverts_edit.
+
+Theorem C04_tr_ec_undo_full : forall (ext : nat -> list val -> mem -> res (val * mem)) (fuelR dR : nat) (m : mem) (gbufs : block) (bl : nat) (blk : block) (bh : nat)
+    (hblk : block) (lb : lbuf) (a0 a1 a2 a3 : val) (d fuel : nat), ext_is_replace ext fuelR dR ->
+  nth_error m G_bufs = Some gbufs -> nth_error gbufs BUFS_LB = Some (VPtr bl 0) ->
+  urep Tc m bl blk bh hblk lb -> undo_ok lb -> undo_run_ok ext fuelR bl d fuel m lb -> (hist_u lb + 33 < fuel)%nat ->
+  match lbuf_undo lb with
+  | None => callx ext cprog fuel (S (S (S (S (S d))))) F_ec_undo [a0; a1; a2; a3] m = Ok (VInt 1, m)
+  | Some lb' => exists (m' : mem) (blk' : block),
+                  callx ext cprog fuel (S (S (S (S (S d))))) F_ec_undo [a0; a1; a2; a3] m = Ok (VInt 0, m') /\ urep Tc m' bl blk' bh hblk lb'
+  end.
+Proof. exact tr_ec_undo_full. Qed.
+Print Assumptions C04_tr_ec_undo_full.
+Theorem C04_tr_ec_redo_full : forall (ext : nat -> list val -> mem -> res (val * mem)) (fuelR dR : nat) (m : mem) (gbufs : block) (bl : nat) (blk : block) (bh : nat)
+    (hblk : block) (lb : lbuf) (a0 a1 a2 a3 : val) (d fuel : nat), ext_is_replace ext fuelR dR ->
+  nth_error m G_bufs = Some gbufs -> nth_error gbufs BUFS_LB = Some (VPtr bl 0) ->
+  urep Tc m bl blk bh hblk lb -> redo_ok lb -> redo_run_ok ext fuelR bl d fuel m lb -> (length (hist lb) - hist_u lb < fuel)%nat ->
+  match lbuf_redo lb with
+  | None => callx ext cprog fuel (S (S (S (S (S d))))) F_ec_redo [a0; a1; a2; a3] m = Ok (VInt 1, m)
+  | Some lb' => exists (m' : mem) (blk' : block),
+                  callx ext cprog fuel (S (S (S (S (S d))))) F_ec_redo [a0; a1; a2; a3] m = Ok (VInt 0, m') /\ urep Tc m' bl blk' bh hblk lb'
+  end.
+Proof. exact tr_ec_redo_full. Qed.
+Print Assumptions C04_tr_ec_redo_full.
+
+(* not vacuous, and the three translated functions RUN on a concrete buffer with the translated lbuf_replace linked in: two lines "a\n", "b\n"
+   (capacity 3, an empty log of 4 records, all blocks behind the program's globals), the text "x\ny" in a block of its own; lbuf_cp is an
+   oracle that hands out the copied lines in a block LONGER than the string (as sbuf_done's buffers are).  lbuf_edit(lb, "x\ny", 1, 2) leaves
+   the lines a, x, y (the table grows 3 -> 6); lbuf_undo returns 0 and leaves a, b -- the ORIGINAL text, from the record's del string
+   [98; 10; 0; ?; ?]; lbuf_redo returns 0 and leaves a, x, y.  The starting memory satisfies urep Tc, the oracle satisfies ext_is_replace, the
+   text argument satisfies bufarg, the model says the same three texts. *)
+Definition cx_G : nat := Eval vm_compute in length cglobals.
+Definition cx_struct : block :=
+  repeat (VInt (-1)) 32 ++ repeat (VInt 0) 32 ++
+  [VPtr (cx_G + 1) 0; VPtr (cx_G + 2) 0; VInt 2; VInt 3; VInt 6; VPtr (cx_G + 5) 0; VInt 4; VInt 0; VInt 0; VInt 0; VInt 4].
+Definition cx_mem : mem :=
+  cglobals ++ [cx_struct; [VPtr (cx_G + 3) 0; VPtr (cx_G + 4) 0; VUndef]; [VInt 0; VInt 0; VUndef];
+               cstr_block [97; 10]; cstr_block [98; 10]; repeat VUndef 36; cstr_block [120; 10; 121]].
+Definition cx_lb : lbuf :=
+  {| ln := [[97; 10]; [98; 10]]%N; hist := []; hist_u := 0; hist_sz := 4; useq := 6; useq_zero := 0; useq_last := 4 |}.
+Definition cx_cp (m : mem) (bl : nat) (b e : Z) : res (val * mem) :=
+  match nth_error m bl with
+  | Some blk =>
+      match nth 64 blk VUndef, nth 66 blk VUndef with
+      | VPtr bln _, VInt n =>
+          let lnblk := nth bln m [] in
+          let cells := flat_map (fun i => match nth i lnblk VUndef with VPtr lb _ => removelast (nth lb m []) | _ => [] end)
+                                (List.seq (Z.to_nat b) (Z.to_nat (Z.min e n) - Z.to_nat b)) in
+          Ok (VPtr (length m) 0, m ++ [cells ++ [VInt 0; VUndef; VUndef]])
+      | _, _ => Err EShape
+      end
+  | None => Err EShape
+  end.
+Definition cx_ext : nat -> list val -> mem -> res (val * mem) := fun f args m =>
+  if Nat.eqb f X_lbuf_replace then callf cprog 100 (S (S (S 3))) F_lbuf_replace args m
+  else if Nat.eqb f X_lbuf_cp then match args with [VPtr bl _; VInt b; VInt e] => cx_cp m bl b e | _ => Err EShape end
+  else Err EShape.
+Definition cx_lines (m : mem) : list (list val) :=
+  match nth 64 (nth cx_G m []) VUndef, nth 66 (nth cx_G m []) VUndef with
+  | VPtr bln _, VInt n => map (fun i => match nth i (nth bln m []) VUndef with VPtr lb _ => nth lb m [] | _ => [] end) (List.seq 0 (Z.to_nat n))
+  | _, _ => []
+  end.
+Definition cx_run : option (list (list val) * Z * list (list val) * Z * list (list val)) :=
+  match callx cx_ext cprog 100 9 F_lbuf_edit [VPtr cx_G 0; VPtr (cx_G + 6) 0; VInt 1; VInt 2] cx_mem with
+  | Ok (_, m1) =>
+      match callx cx_ext cprog 100 8 F_lbuf_undo [VPtr cx_G 0] m1 with
+      | Ok (VInt r2, m2) =>
+          match callx cx_ext cprog 100 8 F_lbuf_redo [VPtr cx_G 0] m2 with
+          | Ok (VInt r3, m3) => Some (cx_lines m1, r2, cx_lines m2, r3, cx_lines m3)
+          | _ => None
+          end
+      | _ => None
+      end
+  | Err _ => None
+  end.
+
+Example C04_tr_edit_undo_redo_runs :
+  cx_run = Some ([cstr_block [97; 10]; cstr_block [120; 10]; cstr_block [121; 10]], 0,
+                 [cstr_block [97; 10]; cstr_block [98; 10]], 0,
+                 [cstr_block [97; 10]; cstr_block [120; 10]; cstr_block [121; 10]]) /\
+  urep Tc cx_mem cx_G cx_struct (cx_G + 5) (repeat VUndef 36) cx_lb /\ ext_is_replace cx_ext 100 3 /\
+  bufarg cx_mem cx_G (cx_G + 5) (VPtr (cx_G + 6) 0) (Some [120; 10; 121]%N) /\ lone_edit cx_lb /\ Forall line_wf (ln cx_lb) /\
+  (let lb1 := lbuf_edit cx_lb (Some [120; 10; 121]%N) 1 2 in
+   ln lb1 = [[97; 10]; [120; 10]; [121; 10]]%N /\ option_map ln (lbuf_undo lb1) = Some (ln cx_lb) /\
+   option_map ln (lbuf_redo (undo1 lb1)) = Some (ln lb1) /\ undo_ok lb1 /\ redo_ok (undo1 lb1)).
+Proof.
+  split; [vm_compute; reflexivity|]. split; [|split; [intros args m; reflexivity|split; [|split; [|split]]]].
+  - constructor; try reflexivity.
+    + intros j Hj. do 64 (destruct j as [|j]; [eexists; reflexivity|]). lia.
+    + unfold i31. cbn. lia.
+    + unfold i32, i31. cbn. repeat split; lia.
+    + intros i Hi. cbn in Hi. lia.
+    + vm_compute. repeat constructor; cbn; intuition discriminate.
+    + exists [cx_G + 1; cx_G + 2; cx_G + 3; cx_G + 4]%nat. split.
+      * exists (cx_G + 1)%nat, (cx_G + 2)%nat, [cx_G + 3; cx_G + 4]%nat, [VPtr (cx_G + 3) 0; VPtr (cx_G + 4) 0; VUndef], [VInt 0; VInt 0; VUndef], 3%nat, [0; 0].
+        repeat (split; [reflexivity|]).
+        split; [intros i Hi; destruct i as [|[|i]]; [reflexivity|reflexivity|cbn in Hi; lia]|].
+        split; [intros i Hi; destruct i as [|[|i]]; [reflexivity|reflexivity|cbn in Hi; lia]|].
+        split; [reflexivity|]. split; [reflexivity|].
+        split; [intros i Hi; destruct i as [|[|i]]; [reflexivity|reflexivity|cbn in Hi; lia]|].
+        split; [vm_compute; repeat constructor; cbn; intuition discriminate|]. cbn. lia.
+      * intros b Hb. vm_compute in Hb. split; [vm_compute; intuition (subst; discriminate)|vm_compute; intuition (subst; lia)].
+  - exists (cx_G + 6)%nat, [120; 10; 121]%N, 0%nat. repeat split; try reflexivity; try (cbn; lia); try (vm_compute; discriminate).
+    repeat constructor; lia.
+  - left. reflexivity.
+  - repeat constructor.
+  - cbv zeta. split; [vm_compute; reflexivity|]. split; [vm_compute; reflexivity|]. split; [vm_compute; reflexivity|].
+    split; [unfold undo_ok|unfold redo_ok]; cbn; unfold splice_ok, i31; cbn; repeat split; lia.
+Qed.
+End C04_translated_composed.
